@@ -2,6 +2,7 @@ package main
 
 import (
 	"fmt"
+	"os"
 	"sort"
 	"strconv"
 	"strings"
@@ -497,7 +498,10 @@ func genC03(g *G) {
 	// exhaustive small scope: every search-tree shape with up to N keys (β = 1000: the tree
 	// is the plain insertion tree), every key present or absent, every single move from
 	// there, and the full forward and backward walks
-	maxN := g.Scale(5, 7)
+	maxN := g.Scale(5, 8)
+	if len(os.Args) > 3 && atoi(os.Args[3])%1000 != 0 {
+		maxN = -1 // the check runs several generator shards (seed*1000+shard): enumerate in shard 0 only
+	}
 	for n := 0; n <= maxN; n++ {
 		seen := map[string]bool{}
 		c03Perms(n, func(p []int) {
@@ -530,7 +534,7 @@ func genC03(g *G) {
 			g.Case(ops)
 		})
 	}
-	cases := g.Scale(2000, 40000)
+	cases := g.Scale(2000, 12000)
 	for i := 0; i < cases; i++ {
 		x := &c03gen{g: g, keys: map[int]map[int]int{}, div: g.Chance(1, 3)}
 		if x.div {
